@@ -601,6 +601,7 @@ func checkC16(w *World, r *Report) {
 	checkCompileUsesOwnSource(w, r)
 	checkReaderAcceptsWhatWriterWrites(w, r)
 	checkConstructorsAgreeOnTree(w, r)
+	checkCodecSizeClasses(w, r)
 }
 
 func (w *World) compareWire(r *Report, wfd, rfd *ast.FuncDecl, wo, ro []wireOp, helper bool, helperPairOK bool) bool {
@@ -1843,4 +1844,153 @@ func checkConstructorsAgreeOnTree(w *World, r *Report) {
 		}
 	}
 	r.floor("constructions of a Template around a tree", len(sites), 2)
+}
+
+// checkCodecSizeClasses — R16.13: how a compiled template is written does not depend on how big it
+// is.  In every function on the serialising / deserialising paths, a branch that compares a size
+// (len/cap, a Size()/Len()/Cap() method, arithmetic on them) with a constant >= 16 never decides
+// which wire-level function runs: the two exclusive regions call the same set of functions that
+// read fields of CompiledTemplate or emit/consume bytes.  A "fast path for big templates" is a
+// second serialiser; it has to agree with the reader field by field, and only templates above the
+// threshold would show that it does not.
+func checkCodecSizeClasses(w *World, r *Report) {
+	var roots []*ssa.Function
+	for _, nm := range []string{"SerializeCompiledTemplate", "DeserializeCompiledTemplate", "CompileTemplate", "LoadFromCompiled"} {
+		if f := w.tryFn(nm); f != nil {
+			roots = append(roots, w.ssaFunc(f))
+		}
+	}
+	cut := map[*ssa.Function]bool{}
+	if m := w.tryMethod("Parser", "Parse"); m != nil {
+		cut[w.ssaFunc(m)] = true
+	}
+	codec := w.reachableFromCut(roots, cut)
+	// wire-level functions: read CompiledTemplate fields, or move bytes
+	wire := map[*ssa.Function]bool{}
+	for _, fn := range w.pkgFuncs() {
+		if !codec[fn] {
+			continue
+		}
+		instrsOf(fn, func(in ssa.Instruction) {
+			switch x := in.(type) {
+			case *ssa.FieldAddr:
+				if t, _ := fieldOfAddr(x); t == "CompiledTemplate" {
+					wire[fn] = true
+				}
+			case ssa.CallInstruction:
+				cc := x.Common()
+				if b, ok := cc.Value.(*ssa.Builtin); ok && (b.Name() == "append" || b.Name() == "copy") && len(cc.Args) > 0 {
+					if sl, ok := cc.Args[0].Type().Underlying().(*types.Slice); ok && types.Identical(sl.Elem(), types.Typ[types.Byte]) {
+						wire[fn] = true
+					}
+				}
+				if g := cc.StaticCallee(); g != nil && g.Pkg != nil {
+					switch g.Pkg.Pkg.Path() {
+					case "encoding/binary":
+						wire[fn] = true
+					case "bytes", "io":
+						if strings.HasPrefix(g.Name(), "Write") || strings.HasPrefix(g.Name(), "Read") {
+							wire[fn] = true
+						}
+					}
+				}
+			}
+		})
+	}
+	for changed := true; changed; {
+		changed = false
+		for _, fn := range w.pkgFuncs() {
+			if !codec[fn] || wire[fn] {
+				continue
+			}
+			instrsOf(fn, func(in ssa.Instruction) {
+				if c, ok := in.(ssa.CallInstruction); ok {
+					if g := c.Common().StaticCallee(); g != nil && wire[g] && !wire[fn] {
+						wire[fn] = true
+						changed = true
+					}
+				}
+			})
+		}
+	}
+	n := 0
+	for _, fn := range w.pkgFuncs() {
+		if !codec[fn] {
+			continue
+		}
+		for _, b := range fn.Blocks {
+			v, trueIdx, ok := ifCond(b)
+			if !ok {
+				continue
+			}
+			bo, ok := v.(*ssa.BinOp)
+			if !ok {
+				continue
+			}
+			switch bo.Op {
+			case token.LSS, token.LEQ, token.GTR, token.GEQ:
+			default:
+				continue
+			}
+			var sz string
+			var cst *ssa.Const
+			if c, ok := bo.Y.(*ssa.Const); ok {
+				if s, ok := sizeValue(bo.X, 0); ok {
+					sz, cst = s, c
+				}
+			} else if c, ok := bo.X.(*ssa.Const); ok {
+				if s, ok := sizeValue(bo.Y, 0); ok {
+					sz, cst = s, c
+				}
+			}
+			if cst == nil || cst.Value == nil || cst.Value.Kind() != constant.Int {
+				continue
+			}
+			th, exact := constant.Int64Val(cst.Value)
+			if th < 16 || (exact && th >= 1<<31) {
+				continue // tiny thresholds are structure tests; 4 GiB limits are the format's range checks
+			}
+			n++
+			region := func(s *ssa.BasicBlock) map[string]bool {
+				set := map[string]bool{}
+				if len(s.Preds) != 1 {
+					return set
+				}
+				for _, blk := range fn.Blocks {
+					if blk != s && !s.Dominates(blk) {
+						continue
+					}
+					for _, in := range blk.Instrs {
+						if c, ok := in.(ssa.CallInstruction); ok {
+							if g := c.Common().StaticCallee(); g != nil && wire[g] {
+								set[ssaName(g)] = true
+							}
+						}
+					}
+				}
+				return set
+			}
+			st, sf := region(b.Succs[trueIdx]), region(b.Succs[1-trueIdx])
+			var onlyT, onlyF []string
+			for k := range st {
+				if !sf[k] {
+					onlyT = append(onlyT, k)
+				}
+			}
+			for k := range sf {
+				if !st[k] {
+					onlyF = append(onlyF, k)
+				}
+			}
+			sort.Strings(onlyT)
+			sort.Strings(onlyF)
+			construct := fmt.Sprintf("%s %s %d", sz, bo.Op, th)
+			if len(onlyT)+len(onlyF) == 0 {
+				r.ok("R16.13", ssaName(fn), construct, w.posOf(bo.Pos()), "both sides run the same wire-level functions", true)
+			} else {
+				r.bad("R16.13", ssaName(fn), construct, w.posOf(bo.Pos()), fmt.Sprintf("the size class selects how the template is written or read: only one side calls {%s}, only the other {%s} — a second serialiser for big templates has to reproduce the format field by field, and only templates above the threshold show whether it does", strings.Join(onlyT, ", "), strings.Join(onlyF, ", ")))
+			}
+		}
+	}
+	r.Counts["size-threshold branches in the codec"] = n
 }
